@@ -397,6 +397,11 @@ func genTransformProg() *rapid.Generator[*ast.Node] {
 			rapid.Custom(func(t *rapid.T) *ast.Node { return ast.BinN("&", ast.CallN("string", name()), ast.StrN("!")) }),
 			rapid.Just(ast.VarN("sum")),
 			rapid.Just(ast.NameN("zz")),
+			rapid.Just(ast.NullN()), // a member set to null is set, not skipped
+			rapid.Custom(func(t *rapid.T) *ast.Node { return ast.N(ast.Cond, ast.CallN("exists", name()), ast.NullN(), ast.NumN(2)) }),
+			rapid.Just(ast.BoolN(false)),
+			rapid.Just(ast.StrN("")),
+			rapid.Just(ast.ArrN()),
 		)
 		var update *ast.Node
 		switch rapid.IntRange(0, 19).Draw(t, "upd") {
